@@ -396,10 +396,16 @@ Definition snap_step (g : geom) (st : step) (first : bool) (tbl : list (N * obs)
   let k1 := obs_class g o (sn_ver s =? 0) in
   let k2 := match prev with
             | None =>
-              (* first observation of a new version: it shows what its parent shows *)
-              match st_req st, sn_base s with
-              | RNewVersion p _, Some _ => chk (obs_same base o) K_ISOLATION
-              | _, _ => 0%nat
+              (* first observation of a version: its nearest observed ancestor is committed, so the
+                 version shows exactly that, except for what a request at the version itself did *)
+              match sn_base s with
+              | Some bv =>
+                if bv =? sn_ver s then 0%nat
+                else if own then
+                       if st_ok st then chk (conserve_ok (st_req st) base o) K_CONSERVE
+                       else chk (obs_same base o) K_REJECTED
+                     else chk (obs_same base o) K_ISOLATION
+              | None => 0%nat
               end
             | Some po =>
               if own then
